@@ -343,6 +343,12 @@ class _Num:
     def __repr__(self):
         return f"<{type(self).__name__} {self.e}>"
 
+    def __deepcopy__(self, memo):
+        return self  # immutable
+
+    def __copy__(self):
+        return self
+
     def __float__(self):
         # float() forces a concrete value: fork over feasible values (bounded domains only)
         return float(cur().concretize(self.e))
@@ -500,6 +506,12 @@ class SymBool:
 
     def __repr__(self):
         return f"<SymBool {self.e}>"
+
+    def __deepcopy__(self, memo):
+        return self
+
+    def __copy__(self):
+        return self
 
 
 def _b(o):
